@@ -150,6 +150,14 @@ PROPS = {
                    'by the level-3 harness oracle (strings read vs Encoding::decode_without_bom_handling of the token bytes, sink bytes vs Encoding::encode, set_encoding positions, refusal of non-ASCII-compatible encodings is by type). '
                    'The model of TextDecoder is tied to the code by the correspondence run on text-only UTF-8 documents (chunk text merged per node, ranges, last flags).',
         level_note='Trusted as C01 plus: decoder_laws as the contract of encoding_rs::Decoder::decode_to_str; harness/src/l3.rs (reference computations with encoding_rs one-shot decode/encode); the Coq UTF-8 decoder instance is a model of encoding_rs validated only by the correspondence run.'),
+    'C18': dict(coq=['props/C18.vo'], families=[('mem', 900, 20000), ('l2mixed', 400, 8000), ('l1', 300, 6000), ('l2fail', 200, 4000), ('enc', 100, 2000)], projections=['full'], oracle=oracle_c18, prepare=prepare_c18,
+        technique='Coq proof by computation over the inventory of global state that the translator regenerates from the source (no process-wide mutable state, one allowed thread-local); '
+                  'extraction-based correspondence run against the model (a pure function); thread-schedule differential runs of the implementation (fresh thread / shared thread / 16 and 3 concurrent workers / migrating send::HtmlRewriter)',
+        level_text='Theorems C18_no_shared_mutable_state and C18_c_api_last_error_is_thread_local: every static / thread_local / lazy_static item in src/ and c-api/src/ (inventory regenerated from the source each run) is immutable, '
+                   'except the C API last-error slot, which is thread-local. Partial: state reachable through heap sharing (Arc/Rc handed to two instances) is not covered by the inventory, and thread interleavings cannot be exhibited by a '
+                   'Gallina model; they are explored on the implementation: every case is run on a fresh thread, on a shared thread after other instances, on 16 and 3 concurrent worker threads, and with a send::HtmlRewriter moved to a new thread '
+                   'for every call while other threads parse selectors; logs (output, events, errors, accounted memory) must be identical, and the sequential run must equal the model (a pure function of configuration and input).',
+        level_note='Trusted as C01 plus the translator\'s global-state inventory (regular expressions over the source) and the OS scheduler actually interleaving the worker threads (16 cores).'),
     #'C01': dict(coq=['props/C01.vo'], families=[('l1', 1500, 40000)], projections=['out_bytes'], oracle=oracle_c01),
     'C12': dict(coq=['props/C12.vo'], families=[('l1', 800, 20000), ('l1fail', 500, 10000), ('l2fail', 500, 10000), ('l2edit', 500, 10000)], projections=['sink_protocol'], oracle=oracle_c12,
         technique='Coq proof: generic frame theorem over the executable model + invariant over call histories; extraction-based correspondence run',
